@@ -29,7 +29,11 @@ use erltf::types::{Atom, ExternalPid, ExternalReference};
 use erltf::{OwnedTerm, decoder};
 use std::time::Duration;
 use tokio::io::{AsyncReadExt, AsyncWriteExt};
+#[cfg(edp_verif)]
+use crate::verif::{OwnedReadHalf, TcpStream};
+#[cfg(not(edp_verif))]
 use tokio::net::TcpStream;
+#[cfg(not(edp_verif))]
 use tokio::net::tcp::OwnedReadHalf;
 use tracing::{debug, trace};
 
